@@ -29,7 +29,7 @@ type c02Case struct {
 	Nt  bool     `json:"nt"`
 }
 
-var xpTable = []string{"", "a", "b", "*", "a/b"}
+var xpTable = []string{"", "a", "b", "*", "a/b", "..", "../a", "../b"} // Eval!XP
 
 func (t *dtree) kids(p int) []int {
 	var out []int
@@ -140,9 +140,14 @@ func (r *schemaRenderer) bodyOrSelf(i int) []string {
 }
 
 func renderEvalSchema(t *dtree, format string, o renderOpts) string {
+	return renderEvalSchemaAt(t, format, o, "/*")
+}
+
+// renderEvalSchemaAt: FINAL_OUTPUT's own xpath is the reader's target (the record is the root element for Eval cases, an
+// element below it for Stream cases)
+func renderEvalSchemaAt(t *dtree, format string, o renderOpts, target string) string {
 	r := &schemaRenderer{t: t, o: o}
-	// FINAL_OUTPUT: the record is the root element; its own xpath is the reader's target
-	parts := append([]string{`"xpath": "/*"`}, r.body(1)...)
+	parts := append([]string{`"xpath": ` + jstr(target)}, r.body(1)...)
 	final := `"FINAL_OUTPUT": {` + strings.Join(parts, ", ") + `}`
 	all := append([]string{final}, r.templates...)
 	return `{"parser_settings": {"version": "omni.2.1", "file_format_type": "` + format + `"},
@@ -313,6 +318,92 @@ func c02Replay(args []string) int {
 }
 
 func init() { cmds["c02-replay"] = c02Replay }
+
+// ---- Stream.tla cases: a whole input of several records, declarations that leave the record (`..`, `../a`)
+
+type c02StreamCase struct {
+	T   dtree      `json:"t"`
+	D   sdoc       `json:"d"`
+	X   sxpath     `json:"x"`
+	Exp [][]string `json:"exp"` // one value per delivered record, in order
+	Nt  bool       `json:"nt"`
+}
+
+func resTokens(r Res) []string { return outputTokens([]Res{r}) }
+
+type cachedSchema struct {
+	sch omniparser.Schema
+	err error
+	p   string
+}
+
+func c02Stream(args []string) int {
+	sum := newSummary()
+	nviol := 0
+	schemas := map[string]*cachedSchema{}
+	err := readLines(args[0], func(line []byte) error {
+		var c c02StreamCase
+		if e := json.Unmarshal(line, &c); e != nil {
+			return e
+		}
+		target := ""
+		for _, st := range c.X.Steps {
+			target += "/" + st.Test
+		}
+		in := c.D.renderXML()
+		for vi, o := range []renderOpts{{}, {templates: true}, {dynamic: true}} {
+			schema := renderEvalSchemaAt(&c.T, "xml", o, target)
+			ce := schemas[schema]
+			if ce == nil {
+				ce = &cachedSchema{}
+				ce.sch, ce.err, ce.p = newSchema([]byte(schema))
+				schemas[schema] = ce
+			}
+			sch, e, p := ce.sch, ce.err, ce.p
+			if p != "" || e != nil {
+				violation("C02", "stream-schema-rejected", fmt.Sprintf("schema rejected: %v %s", e, p), M{"schema": schema})
+				continue
+			}
+			out := runTranscript(sch, strings.NewReader(in), RunOpts{MaxReads: len(c.Exp) + 3})
+			sum.eval(c.Nt, M{"s": schema, "i": in})
+			var got [][]string
+			if out.Panic != "" || out.NewTrErr != "" {
+				got = [][]string{{"PANIC/NEWTRANSFORM", out.Panic + out.NewTrErr}}
+			} else {
+				for _, r := range out.Results {
+					if r.Class == "eof" {
+						break
+					}
+					got = append(got, resTokens(r))
+				}
+			}
+			same := len(got) == len(c.Exp)
+			for k := 0; same && k < len(got); k++ {
+				same = strings.Join(canonKeptEmpty(got[k]), "\x00") == strings.Join(canonKeptEmpty(c.Exp[k]), "\x00")
+			}
+			if !same {
+				nviol++
+				if nviol <= 40 {
+					violation("C02", "stream-eval-mismatch", fmt.Sprintf("xml input %q target %s: expected per record %v got %v", in, target, c.Exp, got),
+						M{"schema": schema, "input": in, "expected": c.Exp, "actual": got, "variant": vi})
+				}
+			}
+			if vi == 0 && c.Nt {
+				sum.sample(M{"schema": schema, "input": in, "expected": c.Exp})
+			}
+		}
+		return nil
+	})
+	if err != nil {
+		fmt.Println("error:", err)
+		return 3
+	}
+	sum.inc("mismatches", nviol)
+	sum.done()
+	return 0
+}
+
+func init() { cmds["c02-stream"] = c02Stream }
 
 // ---- B2: random larger declaration trees and records; TLC evaluates Ref (and Impl) on the logged case
 
